@@ -126,6 +126,34 @@ theorem fractionLost_eq (ls rl : Nat) (hls : ls < 2 ^ 64) (hrl : rl < 2 ^ 64) :
 difference `sdelta` of the timestamp model -/
 theorem ntpTimeDiff_eq (ts last : UInt32) : (Trans.Recv.ntpTimeDiff ts last).toInt = TimeDec.sdelta ts last := rfl
 
+/-- receiver report: `LastSequenceNumber = uint32(cycles)<<16 | uint32(last)` is the model's
+`cycles * 65536 + last` (the `|` is an addition: the low 16 bits of the shifted value are zero) -/
+theorem extSeq_eq (cycles last : UInt16) :
+    (Trans.Recv.extSeq cycles last).toNat = cycles.toNat * 65536 + last.toNat := by
+  unfold Trans.Recv.extSeq
+  have a : cycles.toNat < 65536 := cycles.toNat_lt
+  have b : last.toNat < 65536 := last.toNat_lt
+  have e1 : (cycles.toUInt32 <<< (16 : UInt32)).toNat = cycles.toNat * 65536 := by
+    rw [UInt32.toNat_shiftLeft]
+    have : (16 : UInt32).toNat % 32 = 16 := by decide
+    rw [this, UInt16.toNat_toUInt32, Nat.shiftLeft_eq]
+    have : (2 : Nat) ^ 16 = 65536 := by decide
+    rw [this]; apply Nat.mod_eq_of_lt; omega
+  rw [UInt32.toNat_or, e1, UInt16.toNat_toUInt32]
+  have : cycles.toNat * 65536 = cycles.toNat <<< 16 := by rw [Nat.shiftLeft_eq]
+  rw [this, ← Nat.shiftLeft_add_eq_or_of_lt (by omega : last.toNat < 2 ^ 16), Nat.shiftLeft_eq]
+
+/-- receiver report: `TotalLost = uint32(min(rr.lost, 0xFFFFFF))` is the model's `min lost lostClamp` -/
+theorem totalLost_eq (lost : Nat) (h : lost < 2 ^ 64) :
+    (Trans.Recv.totalLost (UInt64.ofNat lost)).toNat = min lost Rtsp.Facts.Recv.lostClamp := by
+  unfold Trans.Recv.totalLost
+  have hc : Rtsp.Facts.Recv.lostClamp = 16777215 := by decide
+  have e1 : (UInt64.ofNat lost).toNat = lost := by rw [UInt64.toNat_ofNat']; exact Nat.mod_eq_of_lt h
+  have hmin : (min (UInt64.ofNat lost) (16777215 : UInt64)).toNat = min lost 16777215 := by
+    rw [toNat_min64, e1]; rfl
+  rw [UInt64.toNat_toUInt32, hmin, hc]
+  apply Nat.mod_eq_of_lt; omega
+
 /-! non-vacuity: the hypotheses of the conditional bridges hold at ordinary values -/
 example : ∃ s : Recv.State, 1 ≤ s.buf.length ∧ s.buf.length ≤ 2 ^ 15 ∧ s.absPos + 64 < 2 ^ 16 :=
   ⟨Recv.init true 64, by decide⟩
